@@ -86,3 +86,45 @@ fn witness_c06_single_component_changes_the_hash() {
     differ("4k3/8/8/8/8/8/4N3/4K3 w - - 0 1", "4k3/8/8/8/8/8/4n3/4K3 w - - 0 1", "one piece's colour");
     assert_eq!(bad.get(), 0);
 }
+
+/// along deterministic pseudo-random games, for EVERY pseudo-legal move of every position visited (the search applies the
+/// delta before it knows whether the move is legal): incremental == recomputed, both hashes; and the hash of a position does
+/// not depend on how it was reached (the recomputed hash is compared with the hash of the position re-read from its FEN)
+#[test]
+fn witness_c06_along_games() {
+    let mut bad = 0;
+    let mut x: u64 = 0xD1B54A32D192ED03;
+    for root in FENS {
+        for _game in 0..6 {
+            let mut board = Bitboard::from_fen_string_unchecked(root);
+            for _ply in 0..60 {
+                let (h, p) = (board.calculate_zobrist_hash(), board.calculate_zobrist_pawn_hash());
+                let fen = inkayaku_core::fen::Fen::from(&board).fen;
+                let reread = Bitboard::from_fen_string_unchecked(&fen);
+                if reread.calculate_zobrist_hash() != h || reread.calculate_zobrist_pawn_hash() != p {
+                    if bad < 3 { println!("FAILING-INPUT: fen={:?}: the hash of the position reached by play differs from the hash of the same position read from its FEN", fen); }
+                    bad += 1;
+                }
+                let kings_at = |b: &Bitboard| (b.white.kings(), b.black.kings());
+                for mv in board.generate_pseudo_legal_moves() {
+                    let (dx, dp) = Bitboard::zobrist_xor(mv);
+                    let before_kings = kings_at(&board);
+                    board.make(mv);
+                    if kings_at(&board).0 != 0 && kings_at(&board).1 != 0 {
+                        if h ^ dx != board.calculate_zobrist_hash() || p ^ dp != board.calculate_zobrist_pawn_hash() {
+                            if bad < 3 { println!("FAILING-INPUT: fen={:?} move {}: incremental hash differs from the recomputed one", fen, mv.to_uci_string()); }
+                            bad += 1;
+                        }
+                    }
+                    board.unmake(mv);
+                    let _ = before_kings;
+                }
+                let legal = board.generate_legal_moves();
+                if legal.is_empty() { break; }
+                x ^= x << 13; x ^= x >> 7; x ^= x << 17;
+                board.make(legal[(x % legal.len() as u64) as usize]);
+            }
+        }
+    }
+    assert_eq!(bad, 0);
+}
